@@ -247,6 +247,15 @@ def run(tier):
     for dtext in ['#undef F', '#define F(x,y) y x', '#define F 1', '#undef G', '#define G(a) F(a, a)', '#line 7', '#pragma x', '#', '#undef F\n#define F(a, b, c) c', '#if 1']:
         inputs.append(('dirarg', ('#define F(x,y) x y\n#define G(a) F(a, 1)\nint a = F(\n%s\n1,2);\nint b = G(\n%s\n3);\n' % (dtext, dtext)).encode(), 'stdin'))
         inputs.append(('dirarg', ('#define F(x,y) x y\nint a = F(1,\n%s\n2);\nint c = F(1, 2) + F\n%s\n(3, 4);\n' % (dtext, dtext)).encode(), 'stdin'))
+    # ill-formed and boundary UTF-8 in literals of every prefix and in character constants (each encoder and decoder path)
+    from . import c14
+    seqs = [b for _, b, _ in c14.INVALID] + [b'\xf4\x8f\xbf\xbf', b'\xf4\x90\x80\x80', b'\xf4\x90\x80\x81', b'\xed\x9f\xbf', b'\xee\x80\x80', b'\xef\xbf\xbf', b'\xf0\x90\x80\x80', b'\xc2\x80', b'\xdf\xbf', b'\xe0\xa0\x80', b'\xf7\xbf\xbf\xbf', b'\xfb\xbf\xbf\xbf\xbf']
+    for q in seqs:
+        for pfx in (b'', b'u8', b'u', b'U', b'L'):
+            inputs.append(('utf8', b'void *p = ' + pfx + b'"x' + q + b'y";', 'stdin'))
+            inputs.append(('utf8', b'int c = ' + pfx + b"'" + q + b"';", 'stdin'))
+        inputs.append(('utf8', b'#define S(x) #x\nchar *s = S(' + q + b');', 'stdin'))
+        inputs.append(('utf8', b'int a' + q + b'b;', 'stdin'))
     # witnesses of every repaired or recorded finding of any property (regression inputs for the crash fixes among them)
     for f in common.load_findings():
         wtxt = f.get('witness')
